@@ -24,7 +24,7 @@ AllOps == [o : {"iou"}, k : KEYS, sub : SUBS, ver : VERS, st : States, dr : Dirs
                               \cup [o : {"ent_rm"}, k : KEYS] ELSE {})
        \cup [o : {"iter"}]
        \cup [o : {"closest", "closest_pred"}, t : TARGETS]
-       \cup (IF TARGETS = {} THEN {} ELSE [o : {"nbd"}, ds : {<<1>>, <<CFG.bits>>, <<2, 1>>, <<0, CFG.bits, CFG.bits + 1>>}, max : {1, CFG.K}])
+       \cup (IF TARGETS = {} THEN {} ELSE [o : {"nbd"}, ds : {<<1>>, <<CFG.bits>>, <<2, 1>>, <<0, CFG.bits, CFG.bits + 1>>, <<0>>, <<0, 1>>}, max : {1, CFG.K}])
        \cup [o : {"tick"}, d : {1}]
 Ops == IF OPSEL = {} THEN AllOps ELSE {op \in AllOps : op.o \in OPSEL}
 
@@ -66,8 +66,14 @@ IncOps == LET ks == SetToSeq(KeysIn(Top)) IN
 PdisOps == LET ks == SetToSeq(KeysIn(Top)) IN
    [i \in 1..CFG.K |-> Iou(ks[i], "n", IF i <= 3 THEN "D" ELSE "C", "O")]
    \o <<Iou(ks[CFG.K + 1], "n", "C", "O"), [o |-> "uns", k |-> ks[CFG.K + 1], st |-> "D", dr |-> "-"]>>
-Init == \E pat \in (IF PREFILL = 0 THEN {0} ELSE IF PREFILL >= 95 THEN {PREFILL} ELSE {0, 1, 3, PREFILL}) :
-          /\ script = (IF PREFILL = 0 THEN <<>> ELSE IF PREFILL = 99 THEN IpOps ELSE IF PREFILL = 98 THEN PendOps ELSE IF PREFILL = 97 THEN HeadOps ELSE IF PREFILL = 96 THEN IncOps ELSE IF PREFILL = 95 THEN PdisOps ELSE FillOps(pat, PREFILL, "n"))
+\* scenario "ipupd": full top bucket, a candidate *without* ip4 pending, subnet s1 saturated elsewhere (two nodes in each of the buckets
+\* 1 .. Top-1 = the table limit); then the candidate's record is updated into s1 while it is still pending
+IpUpdOps == LET ks == SetToSeq(KeysIn(Top)) IN
+   [i \in 1..CFG.K |-> Iou(ks[i], IF i = 3 THEN "s1" ELSE "n", IF i <= 2 THEN "D" ELSE "C", "O")] \o <<Iou(ks[CFG.K + 1], "n", "C", "O")>> \o TwoEach(Top - 1)
+   \o <<Iou(1, "s1", "C", "O")>>      \* 1 (top bucket) + 2 * (Top - 1) + 1 (bucket 0) = the table limit of CfgRealIp2
+   \o <<[o |-> "un", k |-> ks[CFG.K + 1], sub |-> "s1", ver |-> 1, st |-> "-"]>>
+Init == \E pat \in (IF PREFILL = 0 THEN {0} ELSE IF PREFILL >= 94 THEN {PREFILL} ELSE {0, 1, 3, PREFILL}) :
+          /\ script = (IF PREFILL = 0 THEN <<>> ELSE IF PREFILL = 99 THEN IpOps ELSE IF PREFILL = 98 THEN PendOps ELSE IF PREFILL = 97 THEN HeadOps ELSE IF PREFILL = 96 THEN IncOps ELSE IF PREFILL = 95 THEN PdisOps ELSE IF PREFILL = 94 THEN IpUpdOps ELSE FillOps(pat, PREFILL, "n"))
           /\ tb = EmptyTable(CFG) /\ stamp = <<>>
           /\ lastop = Reset /\ lastret = "ok" /\ hist = <<Reset>> /\ res = [tb |-> <<>>, ret |-> "ok"]
 \* (primed variables are bound in sequence so that Step is evaluated once per successor: TLC
@@ -129,5 +135,8 @@ GoalPendingVsIncomingLimit == ~(\E b \in Buckets(CFG) : script = <<>> /\ lastop.
 GoalDisconnectedPendingApplied == ~(\E b \in Buckets(CFG) : script = <<>> /\ lastop.o = "iter" /\ FullB(b) /\ ~tb[b].pend.on
                            /\ hist[Len(hist) - 1].o = "tick"
                            /\ \E i \in 2..Len(tb[b].nodes) : tb[b].nodes[i].key = SetToSeq(KeysIn(Top))[CFG.K + 1] /\ tb[b].nodes[i].st = "D")
+\* the record update of a pending candidate into a saturated subnet is refused; the candidate is promoted with its old record
+GoalPendingUpdateFiltered == ~(\E b \in Buckets(CFG) : script = <<>> /\ lastop.o = "iter" /\ FullB(b) /\ ~tb[b].pend.on /\ hist[Len(hist) - 1].o = "tick"
+                           /\ \E i \in 1..Len(tb[b].nodes) : tb[b].nodes[i].key = SetToSeq(KeysIn(Top))[CFG.K + 1] /\ tb[b].nodes[i].val.sub = "n")
 GoalBucket0Closest  == ~(lastop.o = "closest" /\ lastop.t % 2 = 1 /\ Len(tb[0].nodes) = 1 /\ Len(lastret) >= 3)
 =============================================================================
